@@ -30,3 +30,21 @@ Definition file_readline (size : option Z) (f : bytes) : bytes * bytes :=
 Definition file_readlines (f : bytes) : list bytes * bytes := (split_lines f, []).
 Definition file_next (f : bytes) : option bytes * bytes :=
   match f with [] => (None, []) | _ => let '(l, r) := file_readline None f in (Some l, r) end.
+
+(* a read program over a binary file: the reference behaviour of wsgi.input (C07) *)
+Definition file_call (cl : call) (f : bytes) : callres * bytes :=
+  match cl with
+  | Read s => (RBytes (fst (file_read s f)), snd (file_read s f))
+  | Readline s => (RBytes (fst (file_readline s f)), snd (file_readline s f))
+  | Readlines => (RLines (split_lines f), [])
+  | Next => match f with
+            | [] => (RStopIter, [])
+            | _ => (RBytes (fst (file_readline None f)), snd (file_readline None f))
+            end
+  end.
+Fixpoint file_run (cls : list call) (f : bytes) : list Z * bytes :=
+  match cls with
+  | [] => ([], f)
+  | cl :: t => let '(r, f') := file_call cl f in
+               let '(o, f'') := file_run t f' in (enc_callres r ++ o, f'')
+  end.
